@@ -159,6 +159,8 @@ _TYPEMAP = {}
 def s_isinstance(o, t):
     if isinstance(t, tuple):
         return any(s_isinstance(o, x) for x in t)
+    if isinstance(o, SymMember):
+        return isinstance(t, type) and issubclass(o._cls, t)
     if t is builtins.int or t is s_int:
         return isinstance(o, (builtins.int, SBit, SInt, SLin, _np.integer))
     if t is builtins.bytes or t is s_bytes:
@@ -224,19 +226,137 @@ class SArray:
 _orig_enum_call = enum.EnumType.__call__
 
 
+class _Raises:
+    def __init__(self, exc):
+        self.exc = exc
+
+
+class SymMember:
+    """an enumeration member that depends on symbolic bits: the finite function  value bits -> member  obtained by running
+    the REAL Enum call (incl. the class's own _missing_) natively on every value of the symbolic argument.  It forks only
+    where control flow really depends on which member it is (==, hash, name); .value and the class's own methods
+    (as_bits ...) work without forking."""
+
+    def __init__(self, cls, fun):
+        object.__setattr__(self, "_cls", cls)
+        object.__setattr__(self, "_fun", fun)
+
+    @property
+    def value(self):
+        from .sfun import SFun
+
+        r = SFun.map(lambda m: m.value, self._fun)
+        return r.to_sint() if isinstance(r, SFun) else r
+
+    def _concretise(self):
+        seen = []
+        for m in self._fun.table:
+            if not any(m is x for x in seen):
+                seen.append(m)
+        for m in seen[:-1]:
+            if bool(self == m):
+                return m
+        return seen[-1]
+
+    def __eq__(self, o):
+        from .sfun import SFun
+
+        if isinstance(o, SymMember):
+            r = SFun.map(lambda a, b: 1 if a is b else 0, self._fun, o._fun)
+        elif isinstance(o, enum.Enum):
+            r = SFun.map(lambda a: 1 if a is o else 0, self._fun)
+        else:
+            return False
+        return r.to_bit() if isinstance(r, SFun) else bool(r)
+
+    def __ne__(self, o):
+        return bnot(self.__eq__(o)) if isinstance(self.__eq__(o), SBit) else not self.__eq__(o)
+
+    def __hash__(self):
+        return hash(self._concretise())
+
+    def __bool__(self):
+        return True
+
+    def __deepcopy__(self, memo):
+        return self
+
+    def __repr__(self):
+        return "<symbolic %s>" % self._cls.__name__
+
+    __str__ = __repr__
+
+    def __format__(self, spec):
+        return repr(self)
+
+    def __getattr__(self, k):
+        cls = object.__getattribute__(self, "_cls")
+        raw = None
+        for c in cls.__mro__:
+            if k in c.__dict__:
+                raw = c.__dict__[k]
+                break
+        import types
+
+        if isinstance(raw, types.FunctionType):
+            return types.MethodType(raw, self)
+        if isinstance(raw, property):
+            return raw.fget(self)
+        if isinstance(raw, (staticmethod, classmethod)):
+            return getattr(cls, k)
+        return getattr(self._concretise(), k)
+
+
 def _enum_call(cls, value, *a, **k):
+    if isinstance(value, SymMember) and not a and not k:
+        if issubclass(value._cls, cls):
+            return value
+        value = value.value
     if a or k or not is_sym(value):
         return _orig_enum_call(cls, value, *a, **k)
     if isinstance(value, (SBit, SLin)):
         value = SInt.lift(value)
-    for v, member in cls._value2member_map_.items():
-        if isinstance(v, (int,)) and v >= 0:
-            if value == v:  # forks
-                return member
-    r = cls._missing_(value)
-    if r is None:
-        raise ValueError(f"{value!r} is not a valid {cls.__qualname__}")
-    return r
+    from .sfun import SFun, MAXSUP
+
+    f = None
+    for cand in (value, value.under_pc() if isinstance(value, SInt) else value):
+        if not is_sym(cand):
+            return _orig_enum_call(cls, cand)
+        try:
+            f = SFun.of(cand)
+            break
+        except OutOfReach as e:
+            core.unpoison(e)
+    if f is None or not isinstance(f, SFun):
+        # wide symbolic value: fork member by member, then the class's own _missing_ on the symbolic value
+        for v, member in cls._value2member_map_.items():
+            if isinstance(v, (int,)) and v >= 0:
+                if value == v:  # forks
+                    return member
+        r = cls._missing_(value)
+        if r is None:
+            raise ValueError(f"{value!r} is not a valid {cls.__qualname__}")
+        return r
+    table = []
+    for x in f.table:
+        try:
+            table.append(_orig_enum_call(cls, int(x)))
+        except Exception as e:  # the real Enum machinery / _missing_ raised for this value
+            table.append(_Raises(type(e)))
+    excs = []
+    for t in table:
+        if isinstance(t, _Raises) and t.exc not in excs:
+            excs.append(t.exc)
+    for exc in excs:
+        bad = SFun(f.support, [1 if (isinstance(t, _Raises) and t.exc is exc) else 0 for t in table]).simplify()
+        if (bool(bad.to_bit()) if isinstance(bad, SFun) else bad):  # forks: this value makes the Enum call raise
+            raise exc(f"symbolic value is not a valid {cls.__qualname__}")
+    good = next(t for t in table if not isinstance(t, _Raises))
+    table = [good if isinstance(t, _Raises) else t for t in table]  # infeasible points on this path
+    if all(t is table[0] for t in table):
+        return table[0]
+    # normalise under the path condition: points excluded by it may remain, they are never observable
+    return SymMember(cls, SFun(f.support, table))
 
 
 def install(modules=None):
